@@ -51,13 +51,14 @@ class P(Property):
     gen_modules = ['gen_codes', 'gen_varint', 'gen_goaway']
     properties_v = 'Properties/C08.v'
     model_targets = ['Model/Goaway.vo', 'Spec/GoawaySpec.vo']
+    extra_targets = ['Model/GoawayWrite.vo']
     extract_v = 'Extract/ExtractC08.v'
     driver_ml = 'C08_driver.ml'
     harness_bin = 'c08'
     rule = ('goaway: the REAL server::Connection over SimQuic, every history of length <= 6 (quick) / <= 8 (thorough) over '
             '{Arrive next id, shutdown(0), shutdown(1), poll accept once, complete the oldest request, peer GOAWAY} x 4 arrival orders '
             '(in and out of stream-ID order), plus seeded random histories of length 8..40 with n in {0,1,2,3,2^62,usize::MAX}, '
-            'ids up to 2^62-8, repeated shutdowns; observed: GOAWAY frames parsed from the control stream bytes, streams returned by '
+            'ids up to 2^62-8, repeated shutdowns; plus every history of length <= 5 (thorough 6) over {Arrive, shutdown(0/1), poll, write budget := 0, grant 2 / 9 bytes, peer GOAWAY} with the budget closed early (pending GOAWAY writes, the same future resumed), plus shutdown(n) after accept() reported an error; observed: GOAWAY frames parsed from the control stream bytes, streams returned by '
             'accept(), STOP_SENDING/RESET codes, accept answers; every implementation trace is judged by the extracted Coq line monitor. '
             'cgoaway: the REAL client driver + SendRequest, every sequence of length <= 5 over '
             '{GOAWAY(id) for id in 0,4,8 and non-request ids 2,3, drive, poll send_request (new call or the one parked for stream credit), '
@@ -96,6 +97,20 @@ class P(Property):
                     out.append('goaway ' + concretise(toks, ORDERS[0]))
                     if na >= 2 and L == 7:
                         out.append('goaway ' + concretise(toks, ORDERS[1]))
+        # control-stream write budget: the GOAWAY write of shutdown() / of accept()'s None arm pends and the SAME future is
+        # polled again after credit arrives (b: budget := 0, W<k>: k more bytes; a GOAWAY frame is 3..10 bytes)
+        walpha = ['A', 'S0', 'S1', 'P', 'b', 'W2', 'W9', 'G0']
+        for L in range(2, (5 if tier == 'quick' else 6) + 1):
+            for toks in itertools.product(walpha, repeat=L):
+                if 'b' not in toks or not ('P' in toks or 'S0' in toks or 'S1' in toks):
+                    continue
+                if toks.index('b') > 2:
+                    continue
+                out.append('goaway ' + concretise(toks, ORDERS[0]))
+        # shutdown(n) after accept() has reported a connection error: refused with that error, nothing written
+        for tail in itertools.chain.from_iterable(itertools.product(['S0', 'S1', 'A', 'P', 'S2'], repeat=k) for k in (1, 2, 3)):
+            for head in (['G4', 'G8', 'P'], ['A', 'P', 'S1', 'G0', 'G4', 'P'], ['S1', 'G1', 'G2', 'P']):
+                out.append('goaway ' + concretise(list(head) + list(tail), ORDERS[0]))
         # seeded random longer histories
         ns = [0, 0, 1, 1, 2, 3, 2 ** 62, U64 - 1, 2 ** 60 - 2, 7]
         for _ in range(4000 if tier == 'quick' else 150000):
@@ -122,6 +137,8 @@ class P(Property):
                     toks.append('C%d' % rng.choice(arrived))
                 elif r < 0.97:
                     toks.append('G%d' % rng.choice([0, 0, 1, 5]))
+                elif r < 0.985:
+                    toks.append(rng.choice(['b', 'W1', 'W3', 'W5', 'W20']))
                 else:
                     toks.append('P')
             out.append('goaway ' + ','.join(toks))
